@@ -84,6 +84,13 @@ class AuthenticationError(USMError):
     """
 
 
+class UnknownEngine(USMError):
+    """
+    This error is raised when a message is processed that claims to come from
+    an authoritative engine other than the one(s) this client talks to.
+    """
+
+
 class UnknownUser(USMError):
     """
     This error is raised when a message is processed that is not consistent
@@ -476,6 +483,14 @@ class UserSecurityModel(
         if security_name != credentials.username.encode("ascii"):
             # See https://tools.ietf.org/html/rfc3414#section-3.1
             raise UnknownUser(f"Unknown user {security_name!r}")
+
+        engine_id = security_params.authoritative_engine_id
+        if self.local_config and engine_id not in self.local_config:
+            # See https://tools.ietf.org/html/rfc3414#section-3.2 (step 3)
+            # The localised keys are derived from the engine-id *in the
+            # message*. Without this check, a message from any other engine
+            # which knows the same user would be accepted.
+            raise UnknownEngine(f"Unknown engine-id {engine_id!r}")
 
         verify_authentication(message, credentials, security_params)
         verify_security_level(message, credentials)
